@@ -61,13 +61,18 @@ LastVal(ws, c, k) ==
 SInit == [w |-> "?", graceful |-> 0, startupTo |-> 0, prelisten |-> TRUE,
           life |-> "init", lifeEnd |-> "", startupAt |-> -1,
           trigAt |-> -1, shutRecv |-> 0, busy |-> {}, serveOut |-> "",
-          sids |-> <<>>, writes |-> <<>>]
+          sids |-> <<>>, writes |-> <<>>, failJust |-> FALSE, kept |-> FALSE]
 
 (* time passes: a pending startup becomes a timed-out one *)
-Pre(s, ev) ==
-    IF s.life = "sent" /\ Has(ev, "now") /\ ev.e # "tick"
+Pre0(s, ev) ==
+    IF s.life = "sent" /\ Has(ev, "now")
     THEN (IF ev.now > s.startupAt + s.startupTo THEN [s EXCEPT !.life = "timeout"] ELSE s)
     ELSE s
+(* did the application survive its own lifespan.startup.failed?  (the event right after the *)
+(* send is its life_done when it let the exception out)                                     *)
+Pre(s, ev) ==
+    LET s0 == Pre0(s, ev) IN
+    IF s0.failJust THEN [s0 EXCEPT !.failJust = FALSE, !.kept = (ev.e # "life_done")] ELSE s0
 
 IsAccept(s, ev) ==
     CASE ev.e = "c_accepted" -> TRUE
@@ -77,7 +82,7 @@ IsAccept(s, ev) ==
 
 FailureCtx(s) ==
     s.w \o (IF s.life = "timeout" THEN "/startup-timeout"
-            ELSE IF s.lifeEnd = "" THEN "/startup-failed-application-keeps-running"
+            ELSE IF s.kept THEN "/startup-failed-application-keeps-running"
             ELSE "/startup-failed")
 
 AcceptClauses(s, ev) ==
@@ -114,7 +119,7 @@ StateClauses(s, ev) ==
 Clauses(s, ev) ==
     AcceptClauses(s, ev) \o StateClauses(s, ev) \o
     (CASE ev.e = "listening" ->
-            IF s.life = "init" /\ s.lifeEnd = ""
+            IF s.startupAt < 0 /\ s.lifeEnd = ""
             THEN <<F("startup-not-first", s.w \o "/listeners-before-startup-delivered")>> ELSE <<>>
        [] ev.e = "life_recv" ->
             IF ev.type = "lifespan.shutdown"
@@ -140,14 +145,15 @@ Step(s, ev) ==
                       !.prelisten = ev.prelisten]
       [] ev.e = "life_recv" ->
             IF ev.type = "lifespan.startup"
-            THEN (IF s.life = "init" THEN [s EXCEPT !.life = "sent", !.startupAt = ev.now] ELSE s)
+            THEN (IF s.life = "init" THEN [s EXCEPT !.life = "sent", !.startupAt = ev.now]
+                  ELSE IF s.startupAt < 0 THEN [s EXCEPT !.startupAt = ev.now] ELSE s)
             ELSE IF ev.type = "lifespan.shutdown" THEN [s EXCEPT !.shutRecv = @ + 1]
             ELSE s
       [] ev.e = "life_send" ->
             IF ev.type = "lifespan.startup.complete" /\ ev.outcome = "ok" /\ s.life \in {"init", "sent"}
             THEN [s EXCEPT !.life = "up"]
             ELSE IF ev.type = "lifespan.startup.failed" /\ s.life \in {"init", "sent"}
-            THEN [s EXCEPT !.life = "failed"]
+            THEN [s EXCEPT !.life = "failed", !.failJust = TRUE]
             ELSE s
       [] ev.e = "life_done" ->
             [s EXCEPT !.lifeEnd = ev.how,
